@@ -42,6 +42,8 @@ TFmt ==
        /\ IsHashValue(v, h)
        /\ Ev.display = ToHex(v, h, TRUE)
        /\ Ev.tostring = ToHex(v, h, TRUE)
+       \* Display ignores width, fill, alignment and precision: always the whole canonical text
+       /\ \A i \in 1..Len(Ev.display_spec) : Ev.display_spec[i] = ToHex(v, h, TRUE)
        /\ Ev.hexp = ToHex(v, h, TRUE)
        /\ Ev.hex = ToHex(v, h, FALSE)
        /\ Ev.bytes = h
@@ -103,6 +105,7 @@ TFromBytes ==
 TStore ==
     /\ IsEvent("store") /\ Clean
     /\ StoreAllows(V, Ev.h, Ev.form, Ev.L, Ev.pre, Ev.r, Ev.post)
+    /\ Ev.outside_ok                                     \* nothing outside the caller's slice was touched
 
 -----------------------------------------------------------------------------
 (* Comparison (C02, C08).                                                  *)
